@@ -255,7 +255,10 @@ def corrupt(rng, sg):
 
 def run_cli(args, cwd):
     env = dict(os.environ, PYTHONPATH=os.environ.get("VERIF_REPO", "/repo"), PYTHONWARNINGS="ignore")
-    p = subprocess.run(["/venv/bin/python", "-m", "pyshacl"] + args, cwd=cwd, env=env, stdout=subprocess.PIPE, stderr=subprocess.PIPE, timeout=120)
+    try:
+        p = subprocess.run(["/venv/bin/python", "-m", "pyshacl"] + args, cwd=cwd, env=env, stdout=subprocess.PIPE, stderr=subprocess.PIPE, timeout=90)
+    except subprocess.TimeoutExpired:
+        return 124, "", "no exit within 90 s"
     return p.returncode, p.stdout.decode("utf-8", "replace"), p.stderr.decode("utf-8", "replace")
 
 
@@ -373,7 +376,9 @@ def run(ctx, out):
         open(binary, "wb").write(bytes(range(256)) * 4)
         empty = os.path.join(tmp, "empty.ttl")
         open(empty, "w").write("")
-        specials = [("cli:good", [good_d, "-s", good_s], None), ("cli:missing-data", [os.path.join(tmp, "nope.ttl"), "-s", good_s], 2),
+        blank = os.path.join(tmp, "blank")       # no extension, no format option: the format is sniffed
+        open(blank, "w").write("\n \n")
+        specials = [("cli:blank-data-no-extension", [blank, "-s", good_s], None), ("cli:good", [good_d, "-s", good_s], None), ("cli:missing-data", [os.path.join(tmp, "nope.ttl"), "-s", good_s], 2),
                     ("cli:missing-shapes", [good_d, "-s", os.path.join(tmp, "nope.ttl")], 2), ("cli:broken-data", [bad, "-s", good_s], 2),
                     ("cli:broken-shapes", [good_d, "-s", bad], 2), ("cli:binary-data", [binary, "-s", good_s], 2), ("cli:no-args", [], 2),
                     ("cli:data-is-directory", [tmp, "-s", good_s], 2), ("cli:empty-data", [empty, "-s", good_s], None),
